@@ -282,8 +282,44 @@ class Tracker:
         return None
 
     def run(self):
-        changed = True
+        """Two passes.  The analysis is flow-insensitive per local, so a user variable assigned on several paths
+        (`let x = if c { guarded_call() } else { None }`) would carry the guard's state on *every* path.  Pass 1 finds the locals
+        that have several whole definitions of which only some carry a state ("mixed"); pass 2 recomputes from the seeds with
+        nothing flowing out of a mixed local, so a branch on such a variable does not count as the guard's decision."""
+        seeds = {l: set(v) for l, v in self.states.items()}
         blocks = [b for b in self.body.blocks if not b["cleanup"]]
+        ndefs = {}
+        for b in blocks:
+            for s in b["stmts"]:
+                if len(s["d"]) == 1:
+                    ndefs[s["d"][0]] = ndefs.get(s["d"][0], 0) + 1
+            t = b["term"]
+            if t["k"] == "call" and len(t.get("d") or []) == 1:
+                ndefs[t["d"][0]] = ndefs.get(t["d"][0], 0) + 1
+        self._contrib = {}
+        self._mixed = set()
+        self._propagate(blocks)
+        mixed = {l for l, n in ndefs.items() if n > 1 and l in self._contrib and len(self._contrib[l]) < n and l not in seeds}
+        if mixed:
+            self.states = {l: set(v) for l, v in seeds.items()}
+            self._contrib = {}
+            self._mixed = mixed
+            self._propagate(blocks)
+        # decisions
+        for b in blocks:
+            t = b["term"]
+            if t["k"] != "switch":
+                continue
+            l = op_local(t["on"])
+            for st in self.states.get(l, ()):
+                self._decide(b["id"], t, st)
+        return self
+
+    def _note(self, d, site):
+        self._contrib.setdefault(d, set()).add(site)
+
+    def _propagate(self, blocks):
+        changed = True
         while changed:
             changed = False
             for b in blocks:
@@ -293,33 +329,52 @@ class Tracker:
                     d = s["d"][0]
                     rv = s["rv"]
                     k = rv["k"]
+                    site = (b["id"], id(s))
                     if k == "use" and rv["a"][0] in ("cp", "mv"):
                         p = rv["a"][1]
+                        if p[0] in self._mixed:
+                            continue
                         for st in list(self.states.get(p[0], ())):
                             n = self._through_place(p, st)
-                            if n and self._add(d, n):
-                                changed = True
+                            if n:
+                                self._note(d, site)
+                                if self._add(d, n):
+                                    changed = True
                     elif k == "ref":
                         p = rv["p"]
+                        if p[0] in self._mixed:
+                            continue
                         for st in list(self.states.get(p[0], ())):
                             n = self._through_place(p, st)
-                            if n and self._add(d, n):
-                                changed = True
+                            if n:
+                                self._note(d, site)
+                                if self._add(d, n):
+                                    changed = True
                     elif k == "discr":
                         p = rv["p"]
+                        if p[0] in self._mixed:
+                            continue
                         for st in list(self.states.get(p[0], ())):
                             n = self._through_place(p, st)
-                            if n and n[0] in ("val", "cf", "poll") and self._add(d, ("discr", n, False)):
-                                changed = True
+                            if n and n[0] in ("val", "cf", "poll"):
+                                self._note(d, site)
+                                if self._add(d, ("discr", n, False)):
+                                    changed = True
                     elif k == "un" and rv["op"] == "Not":
                         l = op_local(rv["a"])
+                        if l in self._mixed:
+                            continue
                         for st in list(self.states.get(l, ())):
-                            if st[0] == "bool" and self._add(d, ("bool", (), not st[2])):
-                                changed = True
+                            if st[0] == "bool":
+                                self._note(d, site)
+                                if self._add(d, ("bool", (), not st[2])):
+                                    changed = True
                 t = b["term"]
                 if t["k"] == "call" and t["args"]:
                     a0 = t["args"][0]
                     if a0[0] not in ("cp", "mv"):
+                        continue
+                    if a0[1][0] in self._mixed:
                         continue
                     sts = set()
                     for st in self.states.get(a0[1][0], ()):
@@ -333,17 +388,10 @@ class Tracker:
                     g = t["ngen"] or ""
                     for st in sts:
                         n = self._call_transfer(c, g, st)
-                        if n and self._add(d, n):
-                            changed = True
-        # decisions
-        for b in blocks:
-            t = b["term"]
-            if t["k"] != "switch":
-                continue
-            l = op_local(t["on"])
-            for st in self.states.get(l, ()):
-                self._decide(b["id"], t, st)
-        return self
+                        if n:
+                            self._note(d, (b["id"], "term"))
+                            if self._add(d, n):
+                                changed = True
 
     def _call_transfer(self, c, g, st):
         wrap, steps, neg = st
